@@ -262,7 +262,8 @@ Post(o, b, a, r, out) ==
           /\ WF(a)
           /\ Flatten(a.ch) = PlainAfter(o, b)
           /\ RetOk(o, b, r)
-     ELSE \/ out = "panic"                           \* the value is not inspected afterwards
+     ELSE \/ out = "panic" /\ WF(a)                 \* a call that panics must not leave a value behind whose reported length
+                                                     \* disagrees with its contents or that exposes an empty chunk ("never produces")
           \/ out = "ok" /\ a = b /\ RetNeutral(o, r) \* unchanged, exactly
 
 (* stable signature of a rejected case (read by tools/fam_chain.py, matched with KNOWN_FINDINGS.json) *)
